@@ -49,6 +49,8 @@ type OpenCall struct {
 	ReleaseOrd int      `json:"release_ord"` // global ordinal of the release, -1 if never released
 	Err        string   `json:"err,omitempty"`
 	Stream     int      `json:"stream"` // index into Streams, -1 if none
+
+	key int // deterministic order key: position in the inventory, then open index
 }
 
 // StreamInfo records what happened to one reader handed out by the daemon.
@@ -148,7 +150,7 @@ func BuildStream(c *Container, opts LogsOpts, frameKinds map[int]string) (Layout
 
 type gate struct {
 	ch   chan struct{}
-	call int // index into Daemon.Opens
+	call *OpenCall
 }
 
 // Daemon is the simulated Docker daemon plus API client.
@@ -167,7 +169,7 @@ type Daemon struct {
 	log     []string
 
 	Lists   []ListCall
-	Opens   []OpenCall
+	opens   []*OpenCall
 	Streams []*SimStream
 	parked  []*gate
 	arrival chan struct{}
@@ -319,10 +321,14 @@ func (d *Daemon) ContainerLogs(_ context.Context, id string, o apicontainer.Logs
 	d.mu.Lock()
 	openIdx := d.opensByID[id]
 	d.opensByID[id] = openIdx + 1
-	seq := d.ev("open", id, openIdx, 0)
-	ci := len(d.Opens)
-	d.Opens = append(d.Opens, OpenCall{Seq: seq, ID: id, OpenIdx: openIdx, Opts: opts, ReleaseOrd: -1, Stream: -1})
-	g := &gate{ch: make(chan struct{}), call: ci}
+	// Concurrent callers arrive in an order the runtime chooses; nothing that
+	// is recorded, hashed or scheduled may depend on it. The arrival only
+	// advances the event counter (all arrivals of a batch precede its first
+	// release, so the counter is the same at every quiescence point).
+	d.seq++
+	call := &OpenCall{ID: id, OpenIdx: openIdx, Opts: opts, ReleaseOrd: -1, Stream: -1, key: d.worldIndex(id)*1000 + openIdx}
+	d.opens = append(d.opens, call)
+	g := &gate{ch: make(chan struct{}), call: call}
 	d.parked = append(d.parked, g)
 	d.mu.Unlock()
 
@@ -343,7 +349,7 @@ func (d *Daemon) ContainerLogs(_ context.Context, id string, o apicontainer.Logs
 	defer d.mu.Unlock()
 	seq2 := d.ev("opened", id, openIdx, 0)
 	fail := func(err error) (io.ReadCloser, error) {
-		d.Opens[ci].Err = err.Error()
+		call.Err = err.Error()
 		return nil, err
 	}
 	if d.cancelled(seq2) {
@@ -370,7 +376,7 @@ func (d *Daemon) ContainerLogs(_ context.Context, id string, o apicontainer.Logs
 		return fail(err)
 	}
 	s := newSimStream(d, id, openIdx, layout, opts.Follow, frameKinds)
-	d.Opens[ci].Stream = len(d.Streams)
+	call.Stream = len(d.Streams)
 	d.Streams = append(d.Streams, s)
 	return s, nil
 }
@@ -414,12 +420,41 @@ func (d *Daemon) nextWake() (time.Time, bool) {
 	return min, true
 }
 
-// Parked returns the currently parked calls, sorted by arrival.
+// worldIndex returns the position of the container in the inventory. Caller holds d.mu.
+func (d *Daemon) worldIndex(id string) int {
+	for i := range d.world.Containers {
+		if d.world.Containers[i].ID == id {
+			return i
+		}
+	}
+	return len(d.world.Containers)
+}
+
+// Parked returns the currently parked calls in inventory order (never in
+// arrival order, which the runtime chooses).
 func (d *Daemon) Parked() []*gate {
 	d.mu.Lock()
 	defer d.mu.Unlock()
 	out := append([]*gate(nil), d.parked...)
-	sort.Slice(out, func(i, j int) bool { return d.Opens[out[i].call].Seq < d.Opens[out[j].call].Seq })
+	sort.SliceStable(out, func(i, j int) bool { return out[i].call.key < out[j].call.key })
+	return out
+}
+
+// OpenCalls returns the recorded ContainerLogs calls in a deterministic
+// order: by batch, then inventory position, then open index.
+func (d *Daemon) OpenCalls() []OpenCall {
+	d.mu.Lock()
+	defer d.mu.Unlock()
+	out := make([]OpenCall, 0, len(d.opens))
+	for _, c := range d.opens {
+		out = append(out, *c)
+	}
+	sort.SliceStable(out, func(i, j int) bool {
+		if out[i].Batch != out[j].Batch {
+			return out[i].Batch < out[j].Batch
+		}
+		return out[i].key < out[j].key
+	})
 	return out
 }
 
@@ -439,12 +474,12 @@ func (d *Daemon) Release(g *gate, batch int) {
 			break
 		}
 	}
-	d.Opens[g.call].ReleaseOrd = d.releaseCount
-	d.Opens[g.call].Batch = batch
+	g.call.ReleaseOrd = d.releaseCount
+	g.call.Batch = batch
 	d.releaseCount++
-	seq := d.Opens[g.call].Seq
+	key := g.call.key
 	d.mu.Unlock()
-	d.note("release", seq, batch)
+	d.note("release", key, batch)
 	close(g.ch)
 }
 
